@@ -114,88 +114,95 @@ func init() {
 										if scale > 0 && (rb == 1 || k%3 != 0) {
 											continue // large frames: every third stream, not with 1-byte reads
 										}
-										v := variant{Client: client, Mode: mode, Chunk: ch, ReadBuf: rb, API: api, Scale: scale}
-										ls := ls
-										if scale > 0 {
-											ls = lsScaled(ls, scale)
-										}
-										cs := concretise(ls, v, *seed)
-										// frame layout
-										ends := make([]int, len(cs.frames)+1)
-										pstart := make([]int, len(cs.frames)+1)
-										off := 0
-										for j, f := range cs.frames {
-											pstart[j+1] = off + f.hdrLen
-											off += len(f.bytes)
-											ends[j+1] = off
-										}
-										// with large frames only the offsets around each header and payload edge, plus a few inside
-										want := map[int]bool{}
-										if scale > 0 {
-											for j := range cs.frames {
-												for d := 0; d <= cs.frames[j].hdrLen+2; d++ {
-													want[ends[j]+d] = true
-												}
-												want[ends[j+1]-1], want[ends[j+1]-2] = true, true
-												if span := ends[j+1] - pstart[j+1]; span > 8 {
-													want[pstart[j+1]+span/2], want[pstart[j+1]+span/3] = true, true
-												}
-											}
-											want[len(cs.bytes)] = true
-										}
-										for cut := 0; cut <= len(cs.bytes); cut++ {
-											if scale > 0 && !want[cut] {
+										for _, fin := range []bool{false, true} {
+											// fin: the sender ends the DEFLATE stream of every compressed message with a BFINAL=1 block, so
+											// that the inflater is done before the last frame (e.g. an empty final fragment) has arrived
+											if fin && (mode == "off" || !hasComp(ls) || scale > 0 || api != "reader") {
 												continue
 											}
-											kc := 0
-											for kc < len(cs.frames) && ends[kc+1] <= cut {
-												kc++
+											v := variant{Client: client, Mode: mode, Chunk: ch, ReadBuf: rb, API: api, Scale: scale, Final: fin}
+											ls := ls
+											if scale > 0 {
+												ls = lsScaled(ls, scale)
 											}
-											where := "boundary"
-											delivered := 0
-											if cut != ends[kc] {
-												if cut < pstart[kc+1] {
-													where = "header"
-												} else {
-													where = "payload"
-												}
+											cs := concretise(ls, v, *seed)
+											// frame layout
+											ends := make([]int, len(cs.frames)+1)
+											pstart := make([]int, len(cs.frames)+1)
+											off := 0
+											for j, f := range cs.frames {
+												pstart[j+1] = off + f.hdrLen
+												off += len(f.bytes)
+												ends[j+1] = off
 											}
-											var exp *cutExp
-											switch where {
-											case "boundary":
-												exp = &row.Cuts[kc].Boundary
-											case "header":
-												exp = &row.Cuts[kc].Header
-											default:
-												exp = &row.Cuts[kc].Payload
-											}
-											for _, fi := range exp.Partial {
-												if fi <= kc {
-													delivered += len(cs.frames[fi-1].bytes) - cs.frames[fi-1].hdrLen
-												} else {
-													delivered += cut - pstart[kc+1]
-												}
-											}
-											for _, endErr := range []error{nil, injected} {
-												id := caseID{Names: row.Names, V: v, Seed: *seed, Cut: cut, CutKind: where, EndErr: endErr != nil}
-												cs, exp, endErr, delivered := cs, exp, endErr, delivered
-												jobs <- func(rng *rand.Rand) {
-													rc := recvCfg{v: v, sent: cs.frames, stream: cs.bytes, cutAt: id.Cut, endErr: endErr}
-													if v.Scale > 0 {
-														unlimited := int64(-1)
-														rc.limit = &unlimited
+											// with large frames only the offsets around each header and payload edge, plus a few inside
+											want := map[int]bool{}
+											if scale > 0 {
+												for j := range cs.frames {
+													for d := 0; d <= cs.frames[j].hdrLen+2; d++ {
+														want[ends[j]+d] = true
 													}
-													o := runRecv(rc, rng)
-													checkCut(rep, id, ls, exp, &cs, &o, delivered)
-													atomic.AddInt64(&evals, 1)
-													if id.Cut > 3 {
-														rep.sample(id)
+													want[ends[j+1]-1], want[ends[j+1]-2] = true, true
+													if span := ends[j+1] - pstart[j+1]; span > 8 {
+														want[pstart[j+1]+span/2], want[pstart[j+1]+span/3] = true, true
 													}
 												}
+												want[len(cs.bytes)] = true
 											}
-											cmu.Lock()
-											classes[fmt.Sprint(row.Names, kc, where, scale)] = true
-											cmu.Unlock()
+											for cut := 0; cut <= len(cs.bytes); cut++ {
+												if scale > 0 && !want[cut] {
+													continue
+												}
+												kc := 0
+												for kc < len(cs.frames) && ends[kc+1] <= cut {
+													kc++
+												}
+												where := "boundary"
+												delivered := 0
+												if cut != ends[kc] {
+													if cut < pstart[kc+1] {
+														where = "header"
+													} else {
+														where = "payload"
+													}
+												}
+												var exp *cutExp
+												switch where {
+												case "boundary":
+													exp = &row.Cuts[kc].Boundary
+												case "header":
+													exp = &row.Cuts[kc].Header
+												default:
+													exp = &row.Cuts[kc].Payload
+												}
+												for _, fi := range exp.Partial {
+													if fi <= kc {
+														delivered += len(cs.frames[fi-1].bytes) - cs.frames[fi-1].hdrLen
+													} else {
+														delivered += cut - pstart[kc+1]
+													}
+												}
+												for _, endErr := range []error{nil, injected} {
+													id := caseID{Names: row.Names, V: v, Seed: *seed, Cut: cut, CutKind: where, EndErr: endErr != nil}
+													cs, exp, endErr, delivered := cs, exp, endErr, delivered
+													jobs <- func(rng *rand.Rand) {
+														rc := recvCfg{v: v, sent: cs.frames, stream: cs.bytes, cutAt: id.Cut, endErr: endErr}
+														if v.Scale > 0 {
+															unlimited := int64(-1)
+															rc.limit = &unlimited
+														}
+														o := runRecv(rc, rng)
+														checkCut(rep, id, ls, exp, &cs, &o, delivered)
+														atomic.AddInt64(&evals, 1)
+														if id.Cut > 3 {
+															rep.sample(id)
+														}
+													}
+												}
+												cmu.Lock()
+												classes[fmt.Sprint(row.Names, kc, where, scale)] = true
+												cmu.Unlock()
+											}
 										}
 									}
 								}
